@@ -5,6 +5,7 @@
 # Result lines are appended to /verif/seeded/MATRIX.txt: "<id> <check> rc=<n> violations=<k>"
 # expected: rc=1 for the checks listed in OWNERS (the seed is caught), never rc=2/3 (broken check)
 cd /verif || exit 2
+export VERIF_REDUCE_BUDGET=6     # the matrix needs the verdict, not a minimal witness
 declare -A OWNERS=(
   [C01]="C08" [C02]="C02" [C03]="C03" [C04]="C04" [C05]="C05" [C06]="C06 C12" [C07]="C07" [C08]="C08" [C09]="C09" [C10]="C10"
   [C11]="C11 C08" [C12]="C12" [C13]="C13" [C14]="C14" [C15]="C15" [C16]="C16" [C17]="C17" [C18]="C18" [C19]="C19" [C20]="C20"
